@@ -67,6 +67,17 @@ pub mod aead_2022 {
     use base64ct::Base64;
     use base64ct::Encoding;
 
+    /// `password_to_keys` for the 2022 ciphers: every key must decode to exactly N bytes
+    /// (a key of the wrong length is a configuration error, not something to pad with zeroes)
+    pub fn password_to_exact_keys<const N: usize>(password: &str) -> Result<([u8; N], Vec<[u8; N]>), base64ct::Error> {
+        for s in password.split(':') {
+            if Base64::decode_vec(s)?.len() != N {
+                return Err(base64ct::Error::InvalidLength);
+            }
+        }
+        password_to_keys(password)
+    }
+
     pub fn password_to_keys<const N: usize>(password: &str) -> Result<([u8; N], Vec<[u8; N]>), base64ct::Error> {
         let split = password.split(':');
         let mut identity_keys = Vec::new();
